@@ -10,7 +10,7 @@
    interleavings is proved per finite scenario (the scenario is in the statement; the schedule is universally
    quantified, its length unbounded in the statement and bounded by the scenario): hence `_partial`. *)
 From Coq Require Import List Bool Arith.
-From SF Require Import Deploy.Model Deploy.Proofs Deploy.Inductive Deploy.Inductive2 Deploy.Inductive3.
+From SF Require Import Deploy.Model Deploy.Proofs Deploy.Inductive Deploy.Inductive2 Deploy.Inductive3 Deploy.Inductive4.
 Import ListNotations.
 
 (* --- return_after: a deploy request returns only after its connector's deploy() returned successfully ---
@@ -163,6 +163,50 @@ Theorem C26_return_after_deploy_undeploy_partial : forall d reqs sched,
 Proof. intros d reqs sched H1 H2 H3 H. exact (return_after_all_executions d H1 H2 H3 reqs H sched). Qed.
 
 Print Assumptions C26_return_after_deploy_undeploy_partial.
+
+(* --- UNBOUNDED (fifth round): the lazy (FutureConnector) fragment ---
+   One lazy, non-wrapper deployment d whose inner connector.deploy() suspends any number of times and may FAIL
+   (any failure list `fails d`), any number of requests, each any sequence of deploy(d0) / use(d0) operations
+   (use = get_connector(d0).get_available_locations(): the prologue shared by every FutureConnector method),
+   EVERY list of scheduling choices.  [lz_ok] (Deploy/Inductive4.v) says of every use that returns OK: the
+   FutureConnector it used has an inner connector whose deploy() had returned successfully, and no inner
+   deploy() had failed before.
+   C26_lazy_once_return_after: the inner deploy() is called at most once, and lz_ok.
+   C26_lazy_fail_wakes: once the inner deploy() has failed, (a) every use that completes afterwards raises
+   (part of lz_ok: an OK completion after a failure is rejected) and (b) no task is blocked on the
+   FutureConnector's deploy_event.
+   What this does and does not cover: it is FutureConnector's OWN protocol (`deploying` flag + `deploy_event`,
+   future.py) -- the clause seeded/C26b breaks.  It is NOT the manager-level clause: C26_fail_wakes_refuted
+   (an exception out of _inner_deploy leaves waiters of a WRAPPER blocked on events_map) stays true of the code,
+   and undeploy of a lazy deployment during its first use still breaks `once` (C26_once_refuted). *)
+Theorem C26_lazy_once_return_after : forall d reqs sched,
+  wrapper d = false -> lazy d = true -> Forall (Forall okopx) reqs ->
+  length (conns_of 0 (log (run false [d] (init reqs) sched))) <= 1 /\
+  lz_ok reqs (log (run false [d] (init reqs) sched)) = true.
+Proof. intros d reqs sched H1 H2 H. exact (lazy_all_executions d H1 H2 reqs H sched). Qed.
+
+Theorem C26_lazy_fail_wakes : forall d reqs sched j t e x,
+  wrapper d = false -> lazy d = true -> Forall (Forall okopx) reqs ->
+  let s := run false [d] (init reqs) sched in
+  has is_DEf (log s) = true -> nth_error (tasks s) j = Some t -> tw t = WEvent e -> futs s = [x] ->
+  e <> f_event x.
+Proof. intros d reqs sched j t e x H1 H2 H. exact (lazy_fail_wakes d H1 H2 reqs H sched j t e x). Qed.
+
+(* the hypotheses are met by a failing inner deploy with three concurrent users: the second and third uses
+   raise, nobody is left blocked *)
+Example C26_lazy_ex :
+  let dl := mkD false None true [true] 2 0 in
+  let rq := [[ODeploy 0; OUse 0]; [OUse 0]; [ODeploy 0; OUse 0]] in
+  let s := run false [dl] (init rq) [0; 1; 2; 0; 0; 1; 2] in
+  Forall (Forall okopx) rq /\ has is_DEf (log s) = true /\ blocked s = [] /\ lz_ok rq (log s) = true.
+Proof.
+  cbv zeta. split.
+  - repeat (apply Forall_cons || apply Forall_nil); unfold okopx; first [left; reflexivity | right; reflexivity].
+  - vm_compute. repeat split; reflexivity.
+Qed.
+
+Print Assumptions C26_lazy_once_return_after.
+Print Assumptions C26_lazy_fail_wakes.
 
 (* --- fail_wakes is false of the current code: d1 wraps d0, d0's deploy fails; the second deploy(d1) is
    blocked for ever (no task is ready, task 1 is not done) *)
